@@ -169,7 +169,9 @@ func (w *world) do(s Stim) (ret string, reply kit.Msg, pan string) {
 	case "UpdateValidation":
 		err = m.UpdateValidationStatus(ctx, chid, s.Val.Result())
 	case "Close":
-		err = m.CloseDataTransferChannel(ctx, chid)
+		cctx, ccancel := context.WithCancel(ctx)
+		err = m.CloseDataTransferChannel(cctx, chid)
+		ccancel() // the usual `defer cancel()` of a caller: the cancel message must still reach the counterparty
 		// the cancel message is sent from a goroutine: wait for it
 		deadline := time.Now().Add(2 * time.Second)
 		for time.Now().Before(deadline) {
